@@ -72,6 +72,8 @@ QUICK_DAG = {
     "diamond4": {"funcs": [_F("f0", ["x"], ["o0"]), _F("f1", ["o0"], ["o1"]), _F("f2", ["o0", "y"], ["o2"]), _F("f3", ["o1", "o2"], ["o3"])]},
     "fan-in": {"funcs": [_F("f0", ["x"], ["o0"]), _F("f1", ["y"], ["o1"]), _F("f2", ["o0", "o1"], ["o2"])]},
     "tuple-leaf": {"funcs": [_F("f0", ["x"], ["o0"]), _F("f1", ["o0", "y"], ["o1", "p1"])]},
+    # the two-output leaf returns a dict and has a custom output_picker
+    "tuple-leaf-custom-picker": {"funcs": [_F("f0", ["x"], ["o0"]), _F("f1", ["o0", "y"], ["o1", "p1"], picker=True)], "deco": "custom-picker"},
     "tuple-interior": {"funcs": [_F("f0", ["x", "y"], ["o0", "p0"]), _F("f1", ["o0"], ["o1"]), _F("f2", ["o1", "p0"], ["o2"])]},
     "nullary": {"funcs": [_F("f0", [], ["o0"]), _F("f1", ["x", "o0"], ["o1"])]},
     "sig-default": {"funcs": [_F("f0", ["x", "y"], ["o0"], sigdef={"y": "dy"}), _F("f1", ["o0"], ["o1"])], "deco": "sigdef"},
@@ -640,7 +642,9 @@ def call_requests(m):
                 continue  # a surplus keyword: rejection is the expected answer (C12's business)
             reqs.append((o, kwi, "intermediate"))
     for f in m.funcs:
-        if f["name"] in m.alive() and len(f["outs"]) > 1 and len(m.group_of(f["name"])) == 1:
+        if f["name"] in m.alive() and len(f["outs"]) > 1 and len(m.group_of(f["name"])) == 1 and not f.get("picker"):
+            # (with a custom picker the whole-tuple request returns the function's raw value, a dict keyed by the names the
+            # function itself uses: nothing a rewrite could or should rename)
             need = m.needed(f["outs"][0])
             reqs.append((tuple(f["outs"]), {r: f"<{r}>" for r in sorted(need)}, "tuple"))
     return reqs
